@@ -2,6 +2,7 @@ package props
 
 import (
 	"fmt"
+	"math/big"
 	"sort"
 	"strings"
 	"testing"
@@ -93,6 +94,8 @@ func c03CubeRun(c c03Cube) error {
 	}
 	return checkCharPassword(sp, o.Pw)
 }
+
+var bigOne = big.NewRat(1, 1)
 
 func popc(x uint32) int {
 	n := 0
@@ -217,6 +220,36 @@ func c03RunForced(c c03Case) error {
 			}
 		}
 		return false, nil
+	}
+	// a stream on which every attempt fails must not yield an invalid password
+	if pr, _ := sp.PSuccess(); pr != nil && pr.Cmp(bigOne) < 0 {
+		var bad []uint32
+		for i := 0; i < 200 && bad == nil; i++ {
+			k := ev.Mix64(c.Key^0x3131, uint64(i))
+			v := make([]uint32, D)
+			for j := range v {
+				v[j] = uint32(ev.Mix64(k, uint64(j)) >> 8)
+			}
+			oo := callForced(v, func(j int, m uint32) uint32 { return ref.Choices[j%D] }, k, r.Generate)
+			if oo.Panic == nil && len(oo.S.Draws) > D {
+				bad = make([]uint32, D)
+				for j := 0; j < D; j++ {
+					bad[j] = oo.S.Draws[j].Choice
+				}
+			}
+		}
+		if bad != nil {
+			oo := callForced(nil, func(j int, m uint32) uint32 { return bad[j%D] }, c.Key, r.Generate)
+			if oo.Panic != nil {
+				return fmt.Errorf("Generate panicked when every attempt fails: %v", oo.Panic)
+			}
+			if oo.Pw != nil {
+				if err := checkCharPassword(sp, oo.Pw); err != nil {
+					return fmt.Errorf("on a stream where every candidate misses a requirement: %w", err)
+				}
+			}
+			ev.Class("all_fail_stream_checked")
+		}
 	}
 	// learn the bound from the reference run
 	o := callForced(ref.Choices, nil, 1, r.Generate)
